@@ -7,6 +7,7 @@ open Qlibc Qlibc.Conf
   Driver module `conf` (see harness/conf.c for the line grammar):
 
     ini <sep> <doc> [<name>=<value> ...]   ->  ok <n> <name>=<value> ...
+    inif <sep> <mainpath> [<path>=<content> ...]   ->  ok <n> <name>=<value> ... | null
     ac <flags> <defcb> <doc> [<opt> ...]   ->  add <k> ret <n> <line|-> <msg|-> cbs <m> <cb> ...
 -/
 namespace Driver.Conf
@@ -34,6 +35,22 @@ def runIni (sep doc : String) (envs : List String) : String :=
     let env := envs.filterMap envWord
     match Ini.parseStr (Ini.harnessWorld env) s d with
     | .ok t => s!"ok {t.length}" ++ String.join (t.map fun (n, v) => s!" {hx n}={hx v}")
+    | .error f => faultStr f
+  | _, _ => "bad-op"
+
+def fileWord (w : String) : Option (Bytes × Bytes) :=
+  match w.splitOn "=" with
+  | [n, v] => match Hex.decode n, Hex.decode v with
+    | some nb, some vb => some (nb, vb)
+    | _, _ => none
+  | _ => none
+
+def runInif (sep main : String) (files : List String) : String :=
+  match arg sep, arg main with
+  | .ok [s], .ok m =>
+    match Ini.parseFile (Ini.harnessWorld []) (Ini.fsLookup (files.filterMap fileWord)) s m with
+    | .ok (some t) => s!"ok {t.length}" ++ String.join (t.map fun (n, v) => s!" {hx n}={hx v}")
+    | .ok none => "null"
     | .error f => faultStr f
   | _, _ => "bad-op"
 
@@ -71,6 +88,7 @@ def step (_ : Unit) (ws : List String) : Unit × String :=
   let out : String :=
     match ws with
     | "ini" :: sep :: doc :: envs => runIni sep doc envs
+    | "inif" :: sep :: main :: files => runInif sep main files
     | "ac" :: flags :: defcb :: doc :: opts => runAc flags defcb doc opts
     | _ => "bad-op"
   ((), out)
